@@ -8,6 +8,6 @@ CONSTANTS MaxDepth = 8
           CbBelow = 3
           AuxDepth = 8
           Lean = FALSE
-          Repaired = {}
+          Repaired = {7, 9}
 INVARIANTS DAndEmit EmitOpts
 CHECK_DEADLOCK FALSE
